@@ -187,7 +187,7 @@ func c19Infer(c *vk.Ctx, id, ts string, soundness bool) (accepted bool) {
 
 // C19 — type inference is total and sound; type compatibility is symmetric.
 func C19(c *vk.Ctx) {
-	c.Rule("type strings: (a) every type the registry's base columns report, legal and illegal parameterisations (time zones, DateTime64 precisions 0..10, Decimal precisions at every width boundary, FixedString sizes incl. 0 / negative / non-numeric, enum definitions with quoted commas and parentheses, interval kinds, types the library does not know), each under Array / Nullable / LowCardinality / Map / Tuple wrappers to depth 1, a smaller base set to depth 2 (thorough 3); (b) ALL token strings of length <= n (quick 5, thorough 6) over a 25-token alphabet of type names, punctuation, parameters and junk; (c) nesting depth 10000; (d) every single edit (deletion, insertion or replacement by one of ()',= 0a- at every position, every truncation) of the set-(a) types with at most 3 parentheses; (e) ALL character strings of length <= m (quick 5, thorough 6) over the alphabet {' a = 1 , space - ( )} as the parameter list of Enum8 / Enum16 / DateTime / DateTime64 / Decimal / Decimal64 / FixedString / Map / Tuple / Nested, bare and under Nullable / Array. Oracle: Infer never panics; when it accepts, the column's type does not conflict with the request and a block of that type written by the reference model decodes to the written values. Conflicts is checked reflexive and symmetric on all ordered pairs of set (a) and against the documented equivalences, generated from families of spellings with one wire layout (enum / bare enum / underlying integer; DecimalN / Decimal(P, S) at both ends of each precision range; timestamps with and without zone), bare and under Array / Nullable / LowCardinality, with the pairs across families of one group required to conflict. distinct_nontrivial = distinct type strings + ordered pairs.")
+	c.Rule("type strings: (a) every type the registry's base columns report, legal and illegal parameterisations (time zones, DateTime64 precisions 0..10, Decimal precisions at every width boundary, FixedString sizes incl. 0 / negative / non-numeric, enum definitions with quoted commas and parentheses, interval kinds, types the library does not know), each under Array / Nullable / LowCardinality / Map / Tuple wrappers to depth 1, a smaller base set to depth 2 (thorough 3); (b) ALL token strings of length <= n (quick 5, thorough 6) over a 25-token alphabet of type names, punctuation, parameters and junk; (c) nesting depth 10000; (d) every single edit (deletion, insertion or replacement by one of ()',= 0a- at every position, every truncation) of the set-(a) types with at most 3 parentheses; (e) ALL character strings of length <= m (quick 5, thorough 6) over the alphabet {' a = 1 , space - ( )} as the parameter list of Enum8 / Enum16 / DateTime / DateTime64 / Decimal / Decimal64 / FixedString / Map / Tuple / Nested, bare and under Nullable / Array. Oracle: Infer never panics; when it accepts, the column's type does not conflict with the request and a block of that type written by the reference model decodes to the written values. Conflicts is checked reflexive and symmetric on all ordered pairs of set (a) and against the documented equivalences, generated from families of spellings with one wire layout (enum / bare enum / underlying integer; DecimalN / Decimal(P, S) at both ends of each precision range; timestamps with and without zone; Map / Tuple types with 0 / 1 / 2 / 4 spaces after each comma), bare and under Array / Nullable / LowCardinality, with the pairs across families of one group required to conflict. distinct_nontrivial = distinct type strings + ordered pairs.")
 	quick := c.Quick()
 	types := c19Types(quick)
 	accepted := 0
@@ -354,6 +354,30 @@ func C19(c *vk.Ctx) {
 			{{"Decimal32", "Decimal(1, 0)", "Decimal(9, 2)", "Decimal(9,2)"}, {"Decimal64", "Decimal(10, 2)", "Decimal(18, 4)"},
 				{"Decimal128", "Decimal(19, 4)", "Decimal(38, 10)"}, {"Decimal256", "Decimal(39, 10)", "Decimal(76, 20)"}},
 			{{"DateTime", "DateTime('UTC')", "DateTime('Europe/Berlin')"}, {"DateTime64(3)", "DateTime64(3, 'UTC')", "DateTime64(9)"}},
+		}
+		// spacing after commas is insignificant, whatever its amount
+		for _, tpl := range []string{"Map(String,%sUInt8)", "Tuple(String,%sUInt8,%sDate)", "Array(Map(String,%sArray(UInt8)))", "Tuple(a String,%sb Map(String,%sUInt8))"} {
+			sp := []string{"", " ", "  ", "    "}
+			var variants []string
+			for _, a := range sp {
+				for _, b := range sp {
+					v := strings.Replace(strings.Replace(tpl, "%s", a, 1), "%s", b, 1)
+					dup := false
+					for _, x := range variants {
+						dup = dup || x == v
+					}
+					if !dup {
+						variants = append(variants, v)
+					}
+				}
+			}
+			for _, a := range variants {
+				for _, b := range variants {
+					if a != b {
+						pairs = append(pairs, pr{a, b, false})
+					}
+				}
+			}
 		}
 		for _, g := range groups {
 			for fi, fam := range g {
